@@ -85,7 +85,8 @@ TypeU  == {"script", "image", "subdocument"}
 FTypes == { [R0 EXCEPT !.permTypes = p, !.restTypes = x] :
               p \in {s \in SUBSET TypeU : Cardinality(s) <= 2}, x \in {s \in SUBSET TypeU : Cardinality(s) <= 2} }
           \ {R0}
-DomU   == { exampleOrg, subExampleOrg, exampleCom, googleWild, exampleWild }
+blogspotCom == <<Str("blogspot"), Str("com")>>       \* a public suffix of the private section, as a plain $domain value
+DomU   == { exampleOrg, subExampleOrg, exampleCom, googleWild, exampleWild, blogspotCom }
 FDomain == { [R0 EXCEPT !.permDom = pr[1], !.restDom = pr[2]] : pr \in Splits(DomU) }
 DenyU  == { exampleOrg, subExampleOrg, exampleCom, exampleWild }
 FDeny  == { [R0 EXCEPT !.denyallow = d] : d \in {s \in SUBSET DenyU : s # {} /\ Cardinality(s) <= MaxSet} }
